@@ -64,7 +64,9 @@ namespace Givaro
     inline ModularBalanced<int32_t>::Element&
     ModularBalanced<int32_t>::neg(Element& r, const Element& a) const
     {
-        return r = -a;
+        r = -a;
+        if (r < _mhalfp) r += _p; // even p: -(p/2) is p/2
+        return r;
     }
 
     inline ModularBalanced<int32_t>::Element&
